@@ -114,3 +114,28 @@ func VerifHTMLKeepTags(n int) {
 	}
 	vReach("end")
 }
+
+// VerifHTMLStartTags (C03): a start tag that carries attributes is never omitted, and keeps its attributes: html, head,
+// body, colgroup with and without attributes, KeepDocumentTags symbolic.
+func VerifHTMLStartTags(n int) {
+	at := func(name string) string {
+		if vBool("attr_" + name) {
+			return " class=a"
+		}
+		return ""
+	}
+	ah, ahd, ab, ac := at("html"), at("head"), at("body"), at("colgroup")
+	in := []byte("<!doctype html><html" + ah + "><head" + ahd + "><title>t</title></head><body" + ab + "><table><colgroup" + ac + "><col><col span=2></colgroup><tr><td>x</td></tr></table></body></html>")
+	o := &Minifier{KeepDocumentTags: vBool("KeepDocumentTags"), KeepEndTags: vBool("KeepEndTags")}
+	out, err := verifHTMLRun(in, o)
+	vReach("after-call")
+	vOutput("out", out)
+	vAssert(err == nil, "accepted")
+	for _, p := range [][2]string{{"html", ah}, {"head", ahd}, {"body", ab}, {"colgroup", ac}} {
+		if p[1] != "" {
+			vAssert(rhIndex(out, "<"+p[0]+" class=a") >= 0, "a start tag with attributes is kept with its attributes")
+		}
+	}
+	vAssert(rhCount(out, "<col") == rhCount(in, "<col")-rhCount(in, "<colgroup")+rhCount(out, "<colgroup"), "col elements kept")
+	vReach("end")
+}
